@@ -3,7 +3,7 @@
    N / positive / nat stay the extracted inductive types.
    Run from driver/extracted (coqc writes the .ml files into the current directory). *)
 From Coq Require Import Extraction ExtrOcamlBasic.
-From MQ Require Import Model.Stream Spec.SpecParse.
+From MQ Require Import Model.Stream Model.Digest Spec.SpecParse.
 Extraction Language OCaml.
 Separate Extraction
-  Prelude Utf8 Reader VarInt Types Topic V3 Props V5 Poll Frontends Valid Stream SpecTopic SpecParse.
+  Prelude Utf8 Reader VarInt Types Topic V3 Props V5 Poll Frontends Valid Stream Digest SpecTopic SpecParse.
